@@ -330,7 +330,7 @@ def _flatten(name, v, out):
         out[name] = {"name": v.get("name"), "data": v.get("data"), "binary": v.get("binary"), "type": v.get("type")}
 
 
-def trace_inputs(trace, prefixes=("in_", "verif_b_result", "verif_ghost"), extra=()):
+def trace_inputs(trace, prefixes=("in_", "verif_b_result", "verif_ghost", "verif_b_table", "verif_cell_base"), extra=()):
     """Last assignment to each harness input variable (name starts with a prefix), flattened to scalar
     leaves, as bit patterns where cbmc provides them."""
     import re as _re
